@@ -11,7 +11,7 @@ REGEN = {'consts': _regen_consts}
 PROP = dict(
     level='proof',
     regen=['consts'],
-    theorems=[],
+    theorems=['Fit.C06.C06_size_eq_len', 'Fit.C06.C06_marshal_total', 'Fit.C06.C06_marshal_bytes', 'Fit.C06.C06_unmarshal_marshal_partial', 'Fit.C06.C06_unmarshal_marshal_full_fails', 'Fit.C06.C06_norm_id', 'Fit.C06.C06_norm_bool', 'Fit.C06.C06_norm_string', 'Fit.C06.C06_norm_strings', 'Fit.C06.C06_unmarshal_guard', 'Fit.C06.C06_unmarshal_no_panic', 'Fit.C06.C06_unmarshal_err_iff', 'Fit.C06.C06_tag', 'Fit.C06.C06_no_cross_type', 'Fit.C06.C06_any_roundtrip', 'Fit.C06.C06_align_by_type'],
     families=[dict(name='value', spec=True, prop=True), dict(name='utf8')],
     trusted_base=STD_TRUST + [
         "Generated/Consts.lean is printed on every run by `fitharness consts` from the compiled packages (proto.Type numbers, proto's sizes table observed through Size(), vbits/vshift/vmask recovered from the raw num word of empty slices, base type numbers / sizes / invalid sentinels)",
